@@ -232,6 +232,15 @@ def handleU (st : St) (n : Nat) (toks : List String) : Result := Id.run do
     let subSize : Option Nat := linfo.bind (fun l => (Wit.parse l cp).map (·.1.size))
     let r := fail st n "C08" s!"honest update refused err={ierr} stored_size={preSize} submitted_size={subSize} stored_opens={preSize.isSome || pre == .absent}"
     st := r.st; outs := outs ++ r.out
+  -- C07: once the errors stop the witness carries on from the last committed state: the fault-free honest step
+  -- that follows a faulty update (built by the harness from what a read returns) is accepted
+  if probe == "1" && faults == "" && ierr != "none" && ((get "class").getD "").startsWith "fault.continue" then
+    let preSize : Option Nat := match pre, linfo with
+      | .val b, some l => (Wit.parse l b).map (·.1.size)
+      | _, _ => none
+    if preSize != some 0 then
+      let r := fail st n "C07" s!"after the storage errors stopped an honest update from the committed state (size {preSize}) was refused err={ierr}: the witness does not carry on from the last committed state"
+      st := r.st; outs := outs ++ r.out
   -- signer outputs are per call
   match st.sess.get? sid with
   | some s2 => st := { st with sess := st.sess.insert sid { s2 with sg := [] } }
